@@ -121,8 +121,7 @@ def parse_config_file(path: str, kwargs: dict):
                 kwargs["httpseeds"] = val
 
             elif key.lower() == "web-seed":
-                kwargs.setdefault("url-list", [])
-                kwargs["url-list"] = val
+                kwargs["url_list"] = val
 
             else:
                 kwargs[key.lower()] = val
